@@ -2,6 +2,7 @@
   C07 — The dependency graph stays acyclic, same-kind and between live items.
 -/
 import ErgoProofs.Lemmas.ConcReach
+import ErgoProofs.Lemmas.DiskInv
 namespace Ergo
 
 /-- the cycle test is exact: `hasCycle g f t` ⇔ adding f→t would close a cycle (f = t or t ⇝ f) -/
@@ -68,5 +69,12 @@ theorem C07_mirror (g : Graph) (a b : Id) : a ∈ g.depsOf b ↔ b ∈ g.rdepsOf
     exact ⟨e, ⟨he, by simpa using h2⟩, by simpa using h1⟩
   · rintro ⟨e, ⟨he, h1⟩, h2⟩
     exact ⟨e, ⟨he, by simpa using h2⟩, by simpa using h1⟩
+
+/-- the same about what is **on disk**: after any command history the bytes of the store read back (real line format) to a log whose
+    graph has no cycle, no self-edge, and edges only between live items of the same kind -/
+theorem C07_inv_holds_of_the_bytes_on_disk {limit : Nat} {log : List Event} {f : Storage.Bytes} (h : Codec.DiskReach limit log f) :
+    ∃ g, Storage.readEvents Codec.classifyLine limit f = .ok log ∧ replay log = .ok g ∧ Inv07 g := by
+  obtain ⟨g, hf, hr, hinv⟩ := Codec.disk_allInv h
+  exact ⟨g, hf, hr, hinv.i07⟩
 
 end Ergo
